@@ -14,7 +14,8 @@ from __future__ import annotations
 PROP = "C04"
 RULES = ("C04.",)
 
-FLAGLISTS_Q = ["\\Seen", "\\Deleted", "\\Answered \\Flagged", "$Fwd", "\\Seen $Fwd"]
+# (system flag names are case-insensitive; `a:b` and an 8-bit atom are keywords an MH folder cannot hold: refused without effect, or stored)
+FLAGLISTS_Q = ["\\Seen", "\\Deleted", "\\Answered \\Flagged", "$Fwd", "\\Seen $Fwd", "\\seen \\DELETED", "a:b", "k\xe9"]
 FLAGLISTS_T = FLAGLISTS_Q + ["\\Draft", "", "Seen", "unseen", "Recent", "replied", "Deleted"]
 INITS = {"plain": {}, "seen1": {1: "\\Seen"}, "mixed": {1: "\\Seen \\Flagged kw", 2: "\\Answered"},
          # keywords that are pieces of system flag names, or differ from one only in case or the backslash
@@ -64,6 +65,8 @@ def alphabet(tier, wide=None):
         {"s": B, "op": "examine", "m": "INBOX"},
         {"s": A, "op": "append", "m": "INBOX", "flags": "\\Seen $Fwd"},
         {"s": A, "op": "append", "m": "INBOX", "flags": ""},
+        {"s": A, "op": "append", "m": "INBOX", "flags": "\\seen \\FLAGGED"},
+        {"s": A, "op": "append", "m": "INBOX", "flags": "kw a:b"},
         {"s": A, "op": "copy", "set": "1", "dst": "other"},
         {"s": A, "op": "copy", "set": "1:*", "dst": "INBOX"},
         {"s": A, "op": "search", "key": "SEEN"},
@@ -136,7 +139,7 @@ def run(tier, seed, jobs):
                   "\\Recent and the derived `unseen` marker are not compared with a model value, except: `unseen` present iff \\Seen absent; "
                   "\\Recent never comes back for a message within one session's stream or in .mh_sequences, and no STORE changes the folder's Recent sequence",
                   "a session's flag knowledge is the last FLAGS value it was sent per message; checked when each command ends and at sync points"],
-                 time_budget=85 if tier == "quick" else 1500)
+                 time_budget=150 if tier == "quick" else 1500)
 
 
 def replay(rec):
